@@ -39,6 +39,10 @@ with open(os.path.join(V, 'seeded', 'README.md'), 'w') as f:
         'C08-24': 'exit 2: clear() added to fifo_cache with a hand-written loop over a run-time number of nodes (twin pair UA3)',
         'C07-48': 'exit 2: a spinning lock() helper built on try_lock() whose blocking fallback is missing - try_lock is not modelled (twin pair WC3)',
         'C06-37': 'exit 2: size() / empty() answered from an atomic mirror that is also published in the middle of an evicting insert - the publication discipline of such a mirror is not modelled (twin pair WD2)',
+        'C01-32': 'exit 2: the mru partition iterator member removed, the partition recomputed from the counter (twin pair XB2)',
+        'C16-28': 'exit 2: the utlru ttl multimap replaced by a sorted list (twin pair XC2)',
+        'C11-24': 'exit 2: hinted multimap re-insertion with lower_bound as the hint, tie order among equal counts (twin pair XD2, as C11-22)',
+        'C01-33': 'exit 2: fifo split into a used list and a free list, the optional back-pointer a plain iterator (twin pair XD3)',
         'C11-22': 'exit 2: hinted multimap re-insertion with lower_bound as the hint (tie order among equal counts; twin pair SC1)',
         'C14-26': 'NOT DECIDED: as C14-20, float versus double product (twin pair SC2)',
         'C08-23': 'NOT DECIDED (exit 0): a hand-written move constructor leaves the partition iterator dangling - constructors and special members are outside the per-operation analysis (twin pair TF1, DESIGN 13.4p)',
